@@ -663,6 +663,7 @@ func (st *State) addEvent(e Event) {
 	}
 	e.Heap = h
 	e.Loop = st.curLoop
+	e.Held = append([]HeldLock(nil), st.held...)
 	st.events = append(st.events, e)
 	st.x.countEvent(st, e)
 }
